@@ -66,12 +66,24 @@ const (
 var c11PathNames = []string{"--val=V", "--val V", "default tag", "environment", "positional", "ini entry"}
 
 // c11Run feeds text to the option through one path and returns (accepted, value, error).
+var c11EditedChoices []string // per leaf: the option was declared with these choices, used once, and then given cd's choices through Option.Choices
+
 func c11Run(cd *c11Decl, path int, text string) (bool, reflect.Value, error, bool) {
 	b := cd.d.BuildTags()
 	if b.Err != nil {
 		return false, reflect.Value{}, b.Err, true
 	}
 	p := b.Parser
+	if c11EditedChoices != nil {
+		o := p.FindOptionByLongName("val")
+		final := o.Choices
+		o.Choices = c11EditedChoices
+		if _, err := p.ParseArgs([]string{"--val=" + c11EditedChoices[0]}); err != nil {
+			return false, reflect.Value{}, err, true
+		}
+		o.Choices = final
+		b.Vals[cd.opt].Set(reflect.Zero(b.Vals[cd.opt].Type()))
+	}
 	var err error
 	val := b.Vals[cd.opt]
 	switch path {
@@ -334,11 +346,17 @@ func init() {
 				t = decl.TInt
 			}
 			path := []int{c11PathInline, c11PathSeparate, c11PathDefault, c11PathEnv}[c.Choose(4)]
+			c11EditedChoices = nil
+			if c.Bool() && (path == c11PathInline || path == c11PathSeparate) {
+				// the same option first carried another choice set (sharing one member) and was used once with it
+				c11EditedChoices = [][]string{{"cat", "bird"}, {"10", "2"}, {"c", "zzz"}}[si]
+				defer func() { c11EditedChoices = nil }()
+			}
 			var cands []string
 			for _, ch := range sets[si] {
 				cands = append(cands, ch, ch[:len(ch)-1], ch+"x", strings.ToUpper(ch), strings.ToLower(ch), " "+ch, ch+" ", "0"+ch, "+"+ch)
 			}
-			cands = append(cands, "", "zzz", "2", "do", "ca")
+			cands = append(cands, "", "zzz", "2", "do", "ca", "bird")
 			text := cands[c.Choose(len(cands))]
 			c11Check(c, c11Get(t, 10, sets[si]), path, text, "choices")
 		}
@@ -351,7 +369,7 @@ func init() {
 		Rule: "(i) every value of int8/uint8/int16/uint16 plus two out-of-range neighbours on each side, rendered in every base 2..36 in both letter cases; " +
 			"(ii) min-1,min,min+1,-1,0,1,max-1,max,max+1,2^64,2^128,-2^63,-2^63-1 for int/int16/int32/int64/uint/uint16/uint32/uint64 in bases 10,2,8,16,36, with and without a leading zero, through 6 paths (--val=V, --val V, default tag, environment, positional, INI entry); " +
 			"(iii) every string of length <= 4 over {0 1 9 a f z - + . e x _ space I n :} for 13 types x bases 10,2,16,36 (thorough: also via default tag and positional); (iv) 56 float rounding/limit/spelling witnesses x sign x float32/float64 x 6 paths; " +
-			"(v) choice sets x near-miss values (prefix, suffix, case, padding, leading zero/plus) x 4 paths; (ii), (iv) and (v) also with IgnoreUnknown set on the parser; oracle: own digit parser + math/big (integers), big.Rat nearest-even (floats), three classes must-accept / must-reject / grey; " +
+			"(v) choice sets (also: a different set first, one use, then the set edited through Option.Choices) x near-miss values (prefix, suffix, case, padding, leading zero/plus) x 4 paths; (ii), (iv) and (v) also with IgnoreUnknown set on the parser; oracle: own digit parser + math/big (integers), big.Rat nearest-even (floats), three classes must-accept / must-reject / grey; " +
 			"distinct = distinct (type, base, class, accepted?, stored value)",
 		Assumptions:  []string{"duration syntax is Go's time.ParseDuration (trusted)", "bool spellings other than true/false, a leading '+', inf/nan/hex-float/underscore spellings are grey: acceptance not asserted, exactness is"},
 		RequiredHits: []string{"must-accept", "must-reject", "grey", "not-a-choice"},
